@@ -740,6 +740,45 @@ def check_identity_keys_use_printed_values(ctx, d) -> None:
     ctx.ob(RID, d.tree, True, "%d values placed into identity keys inspected" % n, construct="identity keys of dsl.py", trivial=True)
 
 
+def check_dedup_keeps_locations(ctx, d) -> None:
+    """R2 (obligation): errors are de-duplicated by a key that contains their LOCATION.  'for e in errors: if K not in seen: keep(e); seen.add(K)':
+    K is str(e) / repr(e) / e itself, or an expression that mentions e.location - a key made of the message alone merges the same mistake made
+    at two places into one report and the second location is never listed."""
+    n = 0
+    for q, f in d.functions.items():
+        for lp in [x for x in source.walk_own(f) if isinstance(x, ast.For) and isinstance(x.target, ast.Name)]:
+            ev = lp.target.id
+            for iff in [x for x in ast.walk(lp) if isinstance(x, ast.If) and isinstance(x.test, ast.Compare) and len(x.test.ops) == 1
+                        and isinstance(x.test.ops[0], ast.NotIn) and isinstance(x.test.comparators[0], ast.Name)]:
+                seen = iff.test.comparators[0].id
+                keeps = any(isinstance(c, ast.Call) and last_attr(c) == "append" and c.args and isinstance(c.args[0], ast.Name) and c.args[0].id == ev
+                            for st_ in iff.body for c in ast.walk(st_))
+                adds = any(isinstance(c, ast.Call) and last_attr(c) == "add" and isinstance(c.func.value, ast.Name) and c.func.value.id == seen for c in ast.walk(lp))
+                if not (keeps and adds):
+                    continue
+                n += 1
+                ctx.analysed(f)
+                key = iff.test.left
+                forms = [key]
+                if isinstance(key, ast.Name):
+                    forms = [a_.value for a_ in ast.walk(lp) if isinstance(a_, ast.Assign) and any(isinstance(t, ast.Name) and t.id == key.id for t in a_.targets)] or [key]
+
+                def whole(e_: ast.AST) -> bool:
+                    if isinstance(e_, ast.Name) and e_.id == ev:
+                        return True
+                    if isinstance(e_, ast.Call) and isinstance(e_.func, ast.Name) and e_.func.id in ("str", "repr") and e_.args and isinstance(e_.args[0], ast.Name) and e_.args[0].id == ev:
+                        return True
+                    return any(isinstance(y, ast.Attribute) and y.attr in ("location", "dsl_location") for y in ast.walk(e_))
+                bad = [e_ for e_ in forms if not whole(e_)]
+                ctx.ob("C06.R2-errors-carry-locations", bad[0] if bad else iff.test, not bad,
+                       "%s de-duplicates its errors by a key that contains their location" % q if not bad else
+                       "%s de-duplicates the collected errors by %s, which does not contain the error's location: the same mistake made at two places - two steps "
+                       "that both pass the malformed reference '<gen:ref>' - is reported once, and the DSLInvalidError no longer lists the second offending "
+                       "location" % (q, short(bad[0], 40)), construct="%s: de-duplication key contains the location" % q)
+    ctx.ob("C06.R2-errors-carry-locations", d.tree, True, "%d de-duplication loops over collected errors inspected" % n,
+           construct="de-duplication loops of dsl.py", trivial=True)
+
+
 def check_foreign_exception_funnels(ctx, d) -> None:
     """R19: a handler that turns the TEXT of the caught exception into a new located error (underlying_error=<SomeError>(f".. {e}")) is the
     funnel through which exceptions of foreign code (KeyError from the scope book, TypeError ..) become part of the DSLInvalidError.  It must
@@ -1070,6 +1109,7 @@ def run(ctx) -> None:
     check_recorded_errors_are_read(ctx, d)
     check_identity_keys_use_printed_values(ctx, d)
     check_foreign_exception_funnels(ctx, d)
+    check_dedup_keeps_locations(ctx, d)
 
     # ---------------- R6 -------------------------------------------------------------------------------
     sp = d.func("OutputReference.split")
